@@ -427,6 +427,22 @@ func (t *totals) addHashes(path string) {
 }
 
 // explore fans the seed range out over worker processes.
+// envKnobs parses VERIF_KNOBS="name=1,other=0" (harness configuration overrides for experiments).
+func envKnobs() map[string]int {
+	v := os.Getenv("VERIF_KNOBS")
+	if v == "" {
+		return nil
+	}
+	m := map[string]int{}
+	for _, kv := range strings.Split(v, ",") {
+		if i := strings.IndexByte(kv, '='); i > 0 {
+			n, _ := strconv.Atoi(kv[i+1:])
+			m[kv[:i]] = n
+		}
+	}
+	return m
+}
+
 func explore(sc *scratch, sp *spec, tier string, seed uint64, runs, chunk int, deadline time.Time, knobs map[string]int) *totals {
 	t := &totals{states: map[uint64]struct{}{}, hashes: map[uint64]struct{}{}}
 	type chunkT struct{ from, to, n int }
@@ -562,7 +578,7 @@ func runCheck(sp *spec, tier string) int {
 	}
 	deadline := time.Now().Add(budget)
 	exploreStart := time.Now()
-	t := explore(sc, sp, tier, seed, runs, sp.chunk(), deadline, nil)
+	t := explore(sc, sp, tier, seed, runs, sp.chunk(), deadline, envKnobs())
 	exploreS := time.Since(exploreStart).Seconds()
 	if t.workerErr != nil {
 		infra("%v", t.workerErr)
@@ -746,7 +762,7 @@ func determinismSample(sc *scratch, sp *spec, tier string, seed uint64, t *total
 	var sets [][]uint64
 	for i, gmp := range []string{"1", "4", "16"} {
 		os.Setenv("VERIF_GOMAXPROCS", gmp)
-		j := &job{Property: sp.ID, Mode: "gen", Tier: tier, Seed: seed, From: 0, To: n, MaxSteps: sp.maxSteps(tier)}
+		j := &job{Property: sp.ID, Mode: "gen", Tier: tier, Seed: seed, From: 0, To: n, MaxSteps: sp.maxSteps(tier), Knobs: envKnobs()}
 		_, err := worker(sc, sp, j, fmt.Sprintf("det%d", i), 10*time.Minute)
 		if err != nil {
 			os.Unsetenv("VERIF_GOMAXPROCS")
